@@ -15,10 +15,12 @@ CA = chan.CA
 # ------------------------------------------------------------------------------------------------
 X_DIV255 = X('div255', CA, r'inline auto div255\(uint32_t in\) -> uint32_t\s*\{', count=1)
 X_DIV32768 = X('div32768', CA, r'inline auto div32768\(uint32_t in\) -> uint32_t\s*\{', count=1)
+R_INTMUL = [('R8.maxv8', r'channel_traits<uint8_t>::max_value\(\)', '255', False), ('R8.maxv16', r'channel_traits<uint16_t>::max_value\(\)', '65535', False),
+            ('R9.float', r'(?<![\w)])float\(', '(float)(', False), ('R9.double', r'(?<![\w)])double\(', '(double)(', False)]
 X_MUL_U8 = X('mul_u8', CA, r'auto operator\(\)\(uint8_t a, uint8_t b\) const -> uint8_t\s*\{',
-             within=r'template<> struct channel_multiplier_unsigned<uint8_t>\s*\{', count=1)
+             within=r'template<> struct channel_multiplier_unsigned<uint8_t>\s*\{', count=1, rules=R_INTMUL)
 X_MUL_U16 = X('mul_u16', CA, r'auto operator\(\)\(uint16_t a, uint16_t b\) const -> uint16_t\s*\{',
-              within=r'template<> struct channel_multiplier_unsigned<uint16_t>\s*\{', count=1)
+              within=r'template<> struct channel_multiplier_unsigned<uint16_t>\s*\{', count=1, rules=R_INTMUL)
 X_MUL_F32 = X('mul_f32', CA, r'auto operator\(\)\(float32_t a, float32_t b\) const -> float32_t\s*\{',
               within=r'template<> struct channel_multiplier_unsigned<float32_t>\s*\{', count=1)
 X_MUL_GEN = X('mul_generic', CA, r'auto operator\(\)\(ChannelValue a, ChannelValue b\) const -> ChannelValue\s*\{',
@@ -268,11 +270,11 @@ def mul_unit(ch, tier):
     # 1. the unsigned multiplier against its own contract
     if kind == 'mul_u8':
         checks.append(Check('div255', 'h_div255', enforce='div255', inputs=('in',), replay='div255'))
-        checks.append(Check('unsigned', 'hz_mul_u8', engine='Z', defines=['ZSTUB_div255'], inputs=inp, replay='lemma'))
+        checks.append(Check('unsigned', 'h_mul_u8', engine='ZS', enforce='mul_u8', replace=['div255'], defines=['ZSTUB_div255'], inputs=inp, replay='lemma', timeout=600))
         checks.append(Check('unsigned_frame', 'h_mul_u8', enforce='mul_u8', replace=['div255'], inputs=inp, replay='lemma',
                             defines=['NO_ARITH']))
     elif kind == 'mul_u16':
-        checks.append(Check('unsigned', 'hz_mul_u16', engine='Z', inputs=inp, replay='lemma'))
+        checks.append(Check('unsigned', 'h_mul_u16', engine='ZS', enforce='mul_u16', inputs=inp, replay='lemma', timeout=600))   # Z on the integer body; a body rewritten with floats falls back to CBMC
     else:
         checks.append(Check('unsigned', 'h_' + kind, enforce=kind, inputs=inp, replay='lemma', tier=t, timeout=to,
                             flags=['--conversion-check', '--float-overflow-check', '--nan-check'] + fbe))
@@ -288,7 +290,7 @@ def mul_unit(ch, tier):
         checks.append(Check('top', 'h_channel_multiply', enforce='channel_multiply', replace=callees, inputs=inp,
                             replay='lemma', tier=t, timeout=to, flags=fbe))
     # 4. algebraic laws as lemmas over the real bodies (inlined; loop-free => complete)
-    checks += lemma_checks('channel_multiply', tier=t, timeout=to, engine='Z' if integer else 'D',
+    checks += lemma_checks('channel_multiply', tier=t, timeout=to, engine='ZD' if integer else 'D',
                            flags=() if integer else ['--conversion-check'])
     if isf:
         # monotonicity of the IEEE-754 product itself is not decided by any installed back end (SAT, z3, cvc5:
